@@ -1,6 +1,7 @@
 package props
 
 import (
+	"strings"
 	"context"
 	"fmt"
 
@@ -150,6 +151,24 @@ func c12Kinds() []c12Kind {
 			}
 			return fmt.Sprint(g), true
 		}, func(cs tls.ConnectionState, v string) bool { return false }},
+		{"hello-retry-request-group-not-listed", func(o offer, hk *connHooks, sc *serverChoice, x *explore.X) (string, bool) {
+			if !has16(o.versions, tls.VersionTLS13) || len(o.shares) == 0 {
+				return "", false
+			}
+			var un []uint16
+			for _, g := range []uint16{29, 23, 24, 25} {
+				if !has16(o.groups, g) {
+					un = append(un, g)
+				}
+			}
+			if len(un) == 0 {
+				return "", false
+			}
+			g := un[x.Choose("value", len(un))]
+			sc.Vers = tls.VersionTLS13
+			hk.Groups13 = func(cg, pref []tls.CurveID) []tls.CurveID { return []tls.CurveID{tls.CurveID(g)} }
+			return fmt.Sprint(g), true
+		}, func(cs tls.ConnectionState, v string) bool { return false }},
 		{"alpn-not-offered", func(o offer, hk *connHooks, sc *serverChoice, x *explore.X) (string, bool) {
 			vers := []uint16{tls.VersionTLS13, tls.VersionTLS12}[x.Choose("version", 2)]
 			if !has16(o.versions, vers) {
@@ -276,8 +295,49 @@ func c12Scenario(clients []gridClient) *explore.Scenario {
 				return
 			}
 			what := fmt.Sprintf("%s kind=%s value=%s", g.Name, k.name, val)
+			// environment: 0 the connection has its Config to itself; 1/2 the *Config is shared (UClient
+			// does not clone it) with a second connection — another parrot family / a custom spec that
+			// offers nearly everything — which builds its own hello while this one awaits the server's
+			// answer. What THIS connection's hello offered is still what counts.
+			env := x.Choose("env", 3)
+			ccfg := g.config("example.com")
+			if env != 0 {
+				what += fmt.Sprintf(" shared-config-env=%d", env)
+				inner := hk.Out
+				built := false
+				hk.Out = func(n int, t uint8, data []byte) []byte {
+					if !built {
+						built = true
+						pe, pse := peer.Pipe()
+						pse.SetIdle()
+						var b *tls.UConn
+						if env == 1 {
+							other := tls.HelloFirefox_120
+							if strings.Contains(g.Name, "Firefox") {
+								other = tls.HelloChrome_120
+							}
+							b = tls.UClient(pe, ccfg, other)
+						} else {
+							b = tls.UClient(pe, ccfg, tls.HelloCustom)
+							func() {
+								defer func() { recover() }()
+								b.ApplyPreset(handshakeSpec("tls13-minimal"))
+							}()
+						}
+						func() {
+							defer func() { recover() }()
+							b.BuildHandshakeState()
+						}()
+						pe.Close()
+					}
+					if inner != nil {
+						return inner(n, t, data)
+					}
+					return data
+				}
+			}
 			var cleanup func()
-			hs := peer.Run(g.config("example.com"), g.ID, sc.config(), peer.Opts{Prepare: g.prepare(), Echo: true,
+			hs := peer.Run(ccfg, g.ID, sc.config(), peer.Opts{Prepare: g.prepare(), Echo: true,
 				OnConns: func(u *tls.UConn, s *tls.Conn) { cleanup = installHooks(s, hk) }})
 			if cleanup != nil {
 				cleanup()
@@ -430,7 +490,7 @@ func c12Scenarios(thorough bool) []*explore.Scenario {
 func init() {
 	register(&Prop{ID: "C12", Level: "exploration", Variant: "A", Scenarios: c12Scenarios,
 		Run: func(c *explore.Check, thorough bool) {
-			c.Rule = "every discovered ID, randomized seeds, custom specs incl. single-suite specs x unoffered-choice kind {TLS 1.3 suite (forced through the suite hook, self-consistent), TLS 1.2 suite (forced, self-consistent), GREASE / TLS 1.3 suite id in a TLS 1.2 ServerHello, ServerHello key_share group without a sent share, ALPN not offered (1.3 EncryptedExtensions / 1.2 ServerHello), compression method 1, selected PSK identity without a PSK offer, legacy session id altered / emptied; over QUIC (UQUICClient vs the package's QUICServer): a non-empty session id echoed to a client that sent none} x every value of the kind's complement menu: Handshake must fail, HandshakeComplete must stay false, no application data, and ConnectionState must not report the value. Certificate-compression: a CompressedCertificate in an algorithm the hello did not list, or after the extension was removed and the hello rebuilt, must be refused (scenario shared with C21). distinct = (client, kind, value)"
+			c.Rule = "every discovered ID, randomized seeds, custom specs incl. single-suite specs x environment {own Config, *Config shared with a second connection (other parrot family / custom spec) that builds its hello while this one awaits the server} x unoffered-choice kind {TLS 1.3 suite (forced through the suite hook, self-consistent), TLS 1.2 suite (forced, self-consistent), GREASE / TLS 1.3 suite id in a TLS 1.2 ServerHello, HelloRetryRequest naming a group the hello does not list, ServerHello key_share group without a sent share, ALPN not offered (1.3 EncryptedExtensions / 1.2 ServerHello), compression method 1, selected PSK identity without a PSK offer, legacy session id altered / emptied; over QUIC (UQUICClient vs the package's QUICServer): a non-empty session id echoed to a client that sent none} x every value of the kind's complement menu: Handshake must fail, HandshakeComplete must stay false, no application data, and ConnectionState must not report the value. Certificate-compression: a CompressedCertificate in an algorithm the hello did not list, or after the extension was removed and the hello rebuilt, must be refused (scenario shared with C21). distinct = (client, kind, value)"
 			c.Assumptions = []string{"forced suites/ALPN keep the hooked server self-consistent (a client lacking the check would complete); ServerHello byte edits (group, compression, session id, PSK) make the server's own transcript diverge, so those rows rely on the client rejecting before Finished"}
 			runAll(c, c12Scenarios(thorough), 0)
 			for _, k := range c12Kinds() {
